@@ -4,7 +4,7 @@ From Coq Require Import List NArith ZArith Bool.
 From Delb.Base Require Import PyStr PyStrFacts.
 From Delb.Gen Require Import GenWrap.
 From Delb.Tree Require Import ATree Merge.
-From Delb.Ws Require Import Reduce Pretty SimplePP WsVariant WsVariantFacts PrettyVariant Wrap WrapSerFacts.
+From Delb.Ws Require Import Reduce Pretty SimplePP WsVariant WsVariantFacts PrettyVariant Wrap WrapSerFacts WrapTextOnly.
 Import ListNotations.
 
 (* (A) soundness of the legality criterion, for every serializer: reducing a legal whitespace variant
@@ -49,12 +49,32 @@ Proof. vm_compute. repeat split. discriminate. Qed.
 
    (for every fitting oracle `req`, the real `_required_space` being the instance `real_req T sr`).  It was false of
    the code before b3af6c0 (finding C03-preserved-newline-offset, fixed); the former witnesses are the regression
-   Example below.  What is proved of it is stated at the end of this file. *)
+   Example below.  PARTIAL - what is proved of it:
+     * C03_wrapped_text_only: the full statement for every element whose only child is a text with content (the
+       domain of C19), written over lines by w_tag (as the serialization root or as a child that does not fit the
+       line), at every depth, from every writer state, for every oracle, every width >= 1 and every indentation of
+       spaces and tabs;
+     * C03_wrapped_lines_variant / C03_wrapped_text_run_partial: for any text run, the lines of the generated
+       _wrap_text written with newline-plus-indentation between them reduce to the text;
+     * part (A) admits exactly such inner variants (clause iii of ws_variant).
+   Not proved: the node-level induction `wrap_is_variant` for elements with several children (mixed content), i.e.
+   that TextWrappingSerializer.serialize_node / _serialize_appendable_node / the partial-line branch of
+   _serialize_text_over_lines write whitespace only where `w_off = 0` was reached by a legal newline.  On that
+   domain the statement is checked by the correspondence + round-trip search of ./check C03 (38 k cases per
+   thorough run, no failure since b3af6c0). *)
 
 Example C03_wrapped_regression :
   reduce_model (wrap_seen [SP; SP] false 5%Z c03_witness []) = c03_witness /\
   reduce_model (wrap_seen [SP; SP] false 5%Z c03_witness_comment []) = c03_witness_comment.
 Proof. split; [exact (proj1 (proj2 (proj2 c03_witness_regression)))|exact (proj2 (proj2 (proj2 (proj2 (proj2 c03_witness_regression)))))]. Qed.
+
+(* elements that contain only text: re-reading and reducing the wrapped output gives the element back *)
+Theorem C03_wrapped_text_only : forall ind align width req, ws_indent ind = true -> no_lf ind = true -> (1 <= width)%Z ->
+  forall L st rp aft ns name attrs k, core k -> directive attrs false = false ->
+  reduce_model (seen (fst (w_tag ind align width req L st rp aft (Tag ns name attrs [Text k]))))
+  = Tag ns name attrs [Text k].
+Proof. exact text_only_transparent. Qed.
+Print Assumptions C03_wrapped_text_only.
 
 (* text run: normalised text k written over lines separated by any non-empty whitespace run (newline plus the
    indentation of the depth), with whitespace w1 before and w2 after it, reduces to k with exactly the spaces the
